@@ -57,6 +57,21 @@ pub fn adjacent_files_cf(f: File) -> BitBoard {
 pub fn no_rays(_s: Square) -> BitBoard {
     BitBoard(0)
 }
+/// recording stand-ins: EMPTY rays as `no_rays`, but the square each accessor was asked about is kept, so a harness can
+/// assert that the scan is anchored on the opponent king (links the `ksq` of the Verus tail proof to the position)
+pub static mut RAY_ARGS: (u8, u8) = (255, 255);
+pub fn rec_bishop_rays(s: Square) -> BitBoard {
+    unsafe {
+        RAY_ARGS.0 = s.to_int();
+    }
+    BitBoard(0)
+}
+pub fn rec_rook_rays(s: Square) -> BitBoard {
+    unsafe {
+        RAY_ARGS.1 = s.to_int();
+    }
+    BitBoard(0)
+}
 /// havoc abstraction of get_rook_rays / get_bishop_rays: ANY set of at most 14 squares (the real rays of a
 /// square never have more than 14 members — proved against the real tables by O16.3s)
 pub fn havoc_rays(_s: Square) -> BitBoard {
